@@ -83,4 +83,106 @@ def Outcome.isUb : Outcome → Bool
 /-- the C string held by a buffer: the bytes before the first NUL -/
 def cstrOf (buf : List UInt8) : List UInt8 := buf.takeWhile (· != 0)
 
+/-! ## the whole-history invariant -/
+
+/-- the blocks a record owns: its data block and, in the separate-node layout, its node block -/
+def Rec.owned (r : Rec) : List Nat := if r.sep then [r.id, r.nodeId] else [r.id]
+
+def owned (t : List Rec) : List Nat := t.flatMap Rec.owned
+
+/-- the layout the public wrappers choose: malloc-family records keep their node separately, and
+    so does every record of the build without guard bytes -/
+def sepOf (c : Cfg) (fam : Nat) : Bool := forcedSep c (fam == famMalloc)
+
+/-- what the detector's record says about memory is true: the size had been accepted, the data
+    block is live and exactly as long as it was requested, the guard bytes behind the user bytes are
+    intact, and the record lives where the layout says (inline: inside the data block, which
+    `layout_sound` places behind the guard bytes; separate: in a live block of its own) -/
+structure RecOk (c : Cfg) (m : List Block) (r : Rec) : Prop where
+  acc   : rejectsAlloc c r.size = false
+  lay   : r.sep = sepOf c r.fam
+  blk   : ∃ b, findBlock m r.id = some b ∧ b.bytes.length = (allocReq c r.sep r.size).toNat ∧
+            (b.bytes.drop r.size.toNat).take c.guard.toNat = guardImage c
+  node  : (r.sep = true → r.nodeId ≠ r.id ∧ ∃ nb, findBlock m r.nodeId = some nb ∧ nb.bytes.length = c.node.toNat) ∧
+          (r.sep = false → r.nodeId = 0)
+
+/-- **The invariant**: every record is true of the memory, and no block is owned twice (tracked
+    blocks are pairwise different blocks, no node block is a data block or another record's node) -/
+structure InvTM (c : Cfg) (t : List Rec) (m : List Block) : Prop where
+  recs  : ∀ r ∈ t, RecOk c m r
+  nodup : (owned t).Nodup
+
+def Inv (c : Cfg) (s : State) : Prop := InvTM c s.tracked s.mem
+
+/-- the platform never hands out a block that is still live -/
+def Fresh (m : List Block) (id : Nat) : Prop := ∀ b ∈ m, b.id ≠ id
+
+def Ans.Fresh (m : List Block) : Ans → Prop
+  | .block id _ => AllocLayout.Fresh m id
+  | _ => True
+
+/-- contract of the two allocator calls of one allocation -/
+structure AllocEnvOk (c : Cfg) (m : List Block) (sep : Bool) (size : W) (a1 a2 : Ans) : Prop where
+  len1   : a1.Ok (allocReq c sep size).toNat
+  len2   : a2.Ok c.node.toNat
+  fresh1 : a1.Fresh m
+  fresh2 : a2.Fresh m
+  differ : a2.isNull = true ∨ a2.id ≠ a1.id
+
+/-- contract of `PlatformSpecificRealloc(old, req)`: NULL, or a block of `req` bytes — at a fresh
+    address or in place — that starts with the common prefix of the old block -/
+def RAns.EnvOk (m : List Block) (ptr : Option Nat) (req : Nat) : RAns → Prop
+  | .null => True
+  | .moved nid nb =>
+    nb.length = req ∧ (AllocLayout.Fresh m nid ∨ ptr = some nid) ∧
+    ∀ oid b, ptr = some oid → findBlock m oid = some b →
+      nb.take (min b.bytes.length req) = b.bytes.take (min b.bytes.length req)
+
+/-- the node block handed out during a realloc is not the block the platform realloc returned -/
+def RAns.differs (a2 : Ans) : RAns → Prop
+  | .moved nid _ => a2.isNull = true ∨ a2.id ≠ nid
+  | .null => True
+
+/-- the pointer a well-behaved client passes to a release/realloc of family `fam`: NULL, a pointer
+    the detector does not track (reported, nothing else happens), or a block of that family -/
+def PtrOk (s : State) (fam : Nat) (ptr : Option Nat) : Prop :=
+  ∀ id, ptr = some id → ∀ r ∈ s.tracked, r.id = id → r.fam = fam
+
+/-- environment and client contract of one operation.  The two listed findings are excluded
+    explicitly: a NULL accounting node during `realloc` (c05-node-alloc-null) and a test failure
+    raised inside a nothrow `operator new` (c05-nothrow-new-terminate). -/
+def OpOk (c : Cfg) (s : State) : Op → Prop
+  | .new v size a1 a2 =>
+    v ∈ Gen.AllocLayout.newVariants ∧ AllocEnvOk c s.mem (forcedSep c false) size a1 a2 ∧
+    (v.nothrow = false ∨ (a1 ≠ .fail ∧ a2 ≠ .fail))
+  | .malloc size a1 a2 => AllocEnvOk c s.mem true size a1 a2
+  | .calloc num size a1 a2 => AllocEnvOk c s.mem true (Gen.AllocLayout.callocRequest num size) a1 a2
+  | .strdup buf a1 a2 =>
+    (0 : UInt8) ∈ buf ∧ buf.length < 2 ^ 62 ∧
+    AllocEnvOk c s.mem true (Gen.AllocLayout.strdupLength (BitVec.ofNat 64 (cstrOf buf).length)) a1 a2
+  | .strndup buf n a1 a2 =>
+    (0 : UInt8) ∈ buf ∧ buf.length < 2 ^ 62 ∧
+    AllocEnvOk c s.mem true (Gen.AllocLayout.strndupLength (BitVec.ofNat 64 (cstrOf buf).length) n) a1 a2
+  | .realloc ptr size ar a2 =>
+    PtrOk s famMalloc ptr ∧ ar.EnvOk s.mem ptr (reallocReq c true size).toNat ∧
+    a2.Ok c.node.toNat ∧ a2.Fresh s.mem ∧ ar.differs a2 ∧ a2 ≠ .null
+  | .free ptr => PtrOk s famMalloc ptr
+  | .delete array ptr => PtrOk s (if array then famNewArray else famNew) ptr
+  | .write id off src => ∃ r ∈ s.tracked, r.id = id ∧ off + src.length ≤ r.size.toNat
+
+/-- every step of a history meets its contract in the state it is applied to -/
+def OpsOk (c : Cfg) (img : NodeImage) : State → List Op → Prop
+  | _, [] => True
+  | s, op :: ops => OpOk c s op ∧ OpsOk c img (step c img s op).1 ops
+
+/-- the block the platform answered with in this operation (0 = none) -/
+def Op.platformBlock : Op → Nat
+  | .new _ _ a1 _ => a1.id
+  | .malloc _ a1 _ => a1.id
+  | .calloc _ _ a1 _ => a1.id
+  | .strdup _ a1 _ => a1.id
+  | .strndup _ _ a1 _ => a1.id
+  | .realloc _ _ ar _ => ar.id
+  | _ => 0
+
 end AllocLayout
